@@ -78,16 +78,16 @@ package kvql
 // in the filter; the removed keys are, position by position, the keys of the point-read plan
 // built for the filter, and every such key satisfies the filter whatever its value (exact).
 //@ func (o *Optimizer) buildDeletePlan(s Storage, stmt *DeleteStmt) (plan FinalPlan, err error)
-//@   props C11 C13
+//@   props C11 C13 C08
 //@   ghost k B, v B
 //@   requires o != nil && wfFilter(o.filter) && wfx(o.filter.Ast.Expr) && stmt != nil && s != nil && !failed
 //@   requires stmt.Limit != nil ==> stmt.Limit.Start >= 0 && stmt.Limit.Count >= 0
 //@   assigns walkFlag, nops, failed, lastErr, allof(pcur)
-//@   ensures[C11] shortcut: err == nil && is(plan, *RemovePlan) ==> stmt.Limit == nil && !hasAnd(o.filter.Ast.Expr) && is(local(fp), *MultiGetPlan)
+//@   ensures[C11,C08] shortcut: err == nil && is(plan, *RemovePlan) ==> stmt.Limit == nil && !hasAnd(o.filter.Ast.Expr) && is(local(fp), *MultiGetPlan)
 //@   ensures[C11] samekeys: err == nil && is(plan, *RemovePlan) ==> len(as(plan, *RemovePlan).Keys) == len(as(local(fp), *MultiGetPlan).Keys) && (forall i Int :: 0 <= i && i < len(as(plan, *RemovePlan).Keys) ==> isStr(as(plan, *RemovePlan).Keys[i]) && strOf(as(plan, *RemovePlan).Keys[i]) == val(as(local(fp), *MultiGetPlan).Keys[i]))
 //@   ensures[C11] exact: err == nil && is(plan, *RemovePlan) ==> (planCovers(local(fp), k) ==> holds(o.filter.Ast.Expr, k, v)) && (holds(o.filter.Ast.Expr, k, v) ==> planCovers(local(fp), k))
 //@   ensures[C11] kinds: err == nil ==> is(plan, *RemovePlan) || is(plan, *DeletePlan)
 //@   ensures[C11] scan: err == nil && is(plan, *DeletePlan) ==> as(plan, *DeletePlan).Storage == s && !as(plan, *DeletePlan).executed && as(plan, *DeletePlan).ChildPlan != nil
-//@   ensures[C11] limited: err == nil && is(plan, *DeletePlan) && !is(as(plan, *DeletePlan).ChildPlan, *EmptyResultPlan) ==> ite(stmt.Limit != nil, is(as(plan, *DeletePlan).ChildPlan, *LimitPlan) && as(as(plan, *DeletePlan).ChildPlan, *LimitPlan).Start == stmt.Limit.Start && as(as(plan, *DeletePlan).ChildPlan, *LimitPlan).Count == stmt.Limit.Count && as(as(plan, *DeletePlan).ChildPlan, *LimitPlan).ChildPlan != nil && (holds(o.filter.Ast.Expr, k, v) ==> planCovers(as(as(plan, *DeletePlan).ChildPlan, *LimitPlan).ChildPlan, k)), holds(o.filter.Ast.Expr, k, v) ==> planCovers(as(plan, *DeletePlan).ChildPlan, k))
+//@   ensures[C11,C08] limited: err == nil && is(plan, *DeletePlan) && !is(as(plan, *DeletePlan).ChildPlan, *EmptyResultPlan) ==> ite(stmt.Limit != nil, is(as(plan, *DeletePlan).ChildPlan, *LimitPlan) && as(as(plan, *DeletePlan).ChildPlan, *LimitPlan).Start == stmt.Limit.Start && as(as(plan, *DeletePlan).ChildPlan, *LimitPlan).Count == stmt.Limit.Count && as(as(plan, *DeletePlan).ChildPlan, *LimitPlan).ChildPlan != nil && (holds(o.filter.Ast.Expr, k, v) ==> planCovers(as(as(plan, *DeletePlan).ChildPlan, *LimitPlan).ChildPlan, k)), holds(o.filter.Ast.Expr, k, v) ==> planCovers(as(plan, *DeletePlan).ChildPlan, k))
 //@   ensures[C11] empty: err == nil && is(plan, *DeletePlan) && is(as(plan, *DeletePlan).ChildPlan, *EmptyResultPlan) ==> !holds(o.filter.Ast.Expr, k, v)
 //@   ensures[C13] surfaced: failed ==> err == lastErr
